@@ -291,6 +291,9 @@ class DIP:
         # Parse nodes
         while len(queue.nodes):
             node = queue.nodes.pop()
+            # Close cases that end at a lower indent
+            if node.keyword not in self.nodes_nohierarchy:
+                target.branching.close_by_indent(node, node.keyword=='case')
             # Perform specific node parsing only outside of case or inside of valid case
             if not target.branching.false_case() or node.keyword=='case':
                 node.inject_value(target)
